@@ -710,12 +710,36 @@ def build_targets(src, failed):
     return targets
 
 
+WPATH = "src/buint/bigint_helpers.rs"
+WIDE_TGT = dict(coq="widening_mul", group="C20", path=WPATH, where="macro bigint_helpers!", fn="widening_mul")
+
+
+def translate_widening(dsigs):
+    """`$BUint::widening_mul` (two nested `while` loops over the digit arrays): entirely inside the subset of tools/rs2v_loops.py;
+    translated by ITS generator (L.Gen), unchanged"""
+    p = os.path.join(REPO, WPATH)
+    if not os.path.exists(p):
+        die("source file %s not found" % p)
+    txt = L.strip_comments(open(p).read())
+    mm = re.search(r"macro_rules!\s*bigint_helpers\s*\{\s*" + rx("($BUint: ident, $BInt: ident, $Digit: ident)") + r"\s*=>", txt)
+    if not mm:
+        die("%s: macro_rules! bigint_helpers with ($BUint, $BInt, $Digit) not found" % WPATH)
+    body, _ = braces(txt, mm.end(), "macro_rules! bigint_helpers")
+    if not re.search(rx("impl<const N: usize> $BUint<N>") + r"\s*\{", body):
+        die("%s: `impl<const N: usize> $BUint<N>` not found in bigint_helpers!" % WPATH)
+    generics, params, ret, fbody = L.find_fn(body, None, "widening_mul", WPATH)
+    sg = L.parse_sig("widening_mul", generics, params, ret, "buint", None)
+    sg["coq"], sg["rng"] = "widening_mul", None
+    return L.translate_one(WPATH, "widening_mul", "widening_mul", {"widening_mul": (WPATH, "widening_mul", fbody)},
+                           {"widening_mul": sg}, dsigs, {WPATH: L.assoc_consts(body)})
+
+
 def stub(tgt, why):
     return "(* %s: %s, fn %s  -- NOT TRANSLATED: %s *)\nDefinition %s : unit := tt.\n" % (
         tgt["path"], tgt["where"], tgt["fn"], why.replace("*)", "* )").replace("(*", "( *"), tgt["coq"])
 
 
-ALL = ["U_standard", "I_standard"] + [p + UNIFORM_FNS[f] for p, _, _ in INSTANCES for f in ORDER]
+ALL = ["widening_mul", "U_standard", "I_standard"] + [p + UNIFORM_FNS[f] for p, _, _ in INSTANCES for f in ORDER]
 
 
 def write(txt):
@@ -774,6 +798,14 @@ def main():
         if not again:
             break
     out = list(HEADER)
+    try:
+        out.append(translate_widening(dsigs))
+    except SystemExit:
+        failed["widening_mul"] = LAST_MSG[0]
+    except Exception as ex:                              # noqa
+        failed["widening_mul"] = repr(ex)
+    if "widening_mul" in failed:
+        out.append(stub(WIDE_TGT, failed["widening_mul"]))
     for tgt in targets:                                  # `targets` is in dependency order (callees first)
         coq = tgt["coq"]
         out.append(stub(tgt, failed[coq]) if coq in failed else texts[coq])
